@@ -98,17 +98,21 @@ def handleBlock (is : List Instr) (out : Sexp) : CaseResult :=
           | none => false
         let seqAgree := seqOk "desc" ks.reverse && seqOk "mixed" mixedKs && seqOk "fresh" ks &&
           seqOk "bigfirst" bigFirstKs
-        -- raw path_fold results (multiset), when the implementation printed them
-        let pathsAgree := (ks.zip pathsS).all fun (k, ps) =>
+        -- hook observations, canonicalised to what the proofs are about: the edge RELATION (dedup + sort;
+        -- multiplicity and insertion order are not constrained by the property) and the SET of values
+        -- `path_fold` produced.  They are only comparable when the hook's node numbering is the
+        -- instruction numbering (one node per instruction).
+        let aligned := implN == is.length
+        let relOf (es : List (Nat × Nat)) : List Nat := sortNat (es.map fun (a, b) => a * (is.length + 1) + b).eraseDups
+        let edgesAgree := !aligned || relOf implEdges == relOf g.edges
+        let pathsAgree := !aligned || (ks.zip pathsS).all fun (k, ps) =>
           match ps with
-          | .list (.atom "many" :: [cnt]) =>
-            (pathFold g (countStep g k) 0 fuel).map List.length == cnt.asNat?
-          | .list (.atom "p" :: xs) =>
+          | .list (.atom "pv" :: xs) =>
             match xs.mapM Sexp.asNat?, pathFold g (countStep g k) 0 fuel with
-            | some impl, some model => sortNat model == impl
+            | some impl, some model => sortNat model.eraseDups == impl
             | _, _ => false
           | _ => false
-        let agree := implN == is.length && implEdges == g.edges && depthAgree && pathsAgree && seqAgree
+        let agree := edgesAgree && depthAgree && pathsAgree && seqAgree
         -- spec on EVERY depth the implementation returned (all call orders): proved checker
         -- (`Props.C29_checker`) and the independent dynamic program over the definition of a chain
         let allAnswers : List (Nat × Nat) :=
@@ -122,7 +126,9 @@ def handleBlock (is : List Instr) (out : Sexp) : CaseResult :=
         let d1 := implDepths.getD 1 0
         { agree := agree, specOk := specOk, nontrivial := !g.edges.isEmpty,
           tags := [sizeTag, s!"edges{min g.edges.length 9}", s!"depth{min d1 9}"] ++ kinds ++
-            (if g.edges.eraseDups.length != g.edges.length then ["parallel-edges"] else []),
+            (if g.edges.eraseDups.length != g.edges.length then ["parallel-edges"] else []) ++
+            (if aligned then [] else ["hook-unaligned"]) ++
+            (if implEdges.eraseDups.length != implEdges.length then ["impl-parallel-edges"] else []),
           detail := s!"model n={is.length} edges={g.edges} depths={modelDepths} big={bigFirstKs.map md} dp={ks.map (dpDepth is)} impl={out}" }
       | _ => { agree := false, specOk := false, nontrivial := true, tags := ["impl-not-ok", sizeTag],
                detail := s!"model=ok impl={out}" }
